@@ -143,6 +143,7 @@ func Gen(seed uint64, profile string) *Scenario {
 		sc.Adds = append([]Add{{Kind: "remote", Addr: sc.Pkgs[0].Source(m.SubPath), Finder: m.Finder}}, sc.Adds...)
 	}
 	aliasSpelling(simkit.NewRNG(seed, "bw/alias-spelling"), sc)
+	madeAddresses(simkit.NewRNG(seed, "bw/made-addresses"), sc)
 	// (not with the post-build operations, whose oracles relate paths to the root as spelled)
 	sc.TargetVia = len(sc.Post) == 0 && simkit.NewRNG(seed, "bw/target-via").Chance(1, 6)
 	vr := simkit.NewRNG(seed, "bw/variants")
@@ -343,6 +344,10 @@ func genWorld(r *simkit.RNG, sc *Scenario, k *gknobs) {
 							}
 						case 2:
 							dg.File = "/abs/not-a-subpath"
+							if simkit.NewRNG(sc.Seed, "bw/diag-dot-"+dg.ID).Chance(1, 2) {
+								// about the package's top directory as a whole
+								dg.File = "."
+							}
 						}
 						m.Diags = append(m.Diags, dg)
 					}
@@ -527,6 +532,29 @@ func genWorld(r *simkit.RNG, sc *Scenario, k *gknobs) {
 				}
 			}
 		}
+		if fr := simkit.NewRNG(sc.Seed, "bw/twin-filelink"); fr.Chance(1, 5) {
+			// one twin holds a regular file, the other a link (to a file of the package with the
+			// same bytes) under that name: two different trees with equal bytes behind every name
+			src := &sc.Pkgs[a]
+			if !hasPath(src.Files, "copy.tf") && !hasPath(tw.Files, "copy.tf") && hasPath(src.Files, "main.tf") {
+				body := ""
+				for _, f := range src.Files {
+					if f.Path == "main.tf" {
+						body = f.Body
+					}
+				}
+				same := true
+				for _, f := range tw.Files {
+					if f.Path == "main.tf" && f.Body != body {
+						same = false
+					}
+				}
+				if same {
+					src.Files = append(src.Files, PFile{Path: "copy.tf", Kind: "file", Body: body, Mode: 0o644})
+					tw.Files = append(tw.Files, PFile{Path: "copy.tf", Kind: "link", Target: "main.tf"})
+				}
+			}
+		}
 		if lr := simkit.NewRNG(sc.Seed, "bw/twin-link"); k.hostileTrees && lr.Chance(1, 2) {
 			// the twin delivers one file as a link to a file outside the bundle that holds the
 			// same bytes: hashed through the link the two trees are equal, but the twin must be refused
@@ -634,6 +662,10 @@ func metaTwins(r *simkit.RNG, sc *Scenario) {
 	}
 	// make sure both twins are asked for
 	sc.Adds = append(sc.Adds, Add{Kind: "registry", Addr: rp.Addr, Constr: lastAdd[0], Finder: "F1"}, Add{Kind: "final", Addr: rp.Addr + "@" + lastAdd[1], Finder: "F1"})
+	if simkit.NewRNG(sc.Seed, "bw/meta-twins-open").Chance(1, 3) {
+		// ... and once without saying which: both twins are the greatest version offered
+		sc.Adds = append(sc.Adds, Add{Kind: "registry", Addr: rp.Addr, Constr: "", Finder: "F2"})
+	}
 }
 
 func pickConstr(r *simkit.RNG, k *gknobs) string {
@@ -773,6 +805,9 @@ func addHostile(r *simkit.RNG, p *Pkg, i, np int, rootRun bool) {
 		{Path: "hd/h-leak", Kind: "link", Target: "h-top/../../victim"},
 		{Path: ".terraformignore", Kind: "fifo", Mode: 0o644},
 		{Path: ".terraformignore", Kind: "link", Target: "h-fifo"},
+		// a rule file that is a link to a file outside the package, whose rules exclude the link
+		{Path: ".terraformignore", Kind: "link", Target: "/w/outside-rules"},
+		{Path: ".terraformignore", Kind: "link", Target: "../../outside-rules"},
 		// links that name the very directory the fetcher was told to fill: inside the package
 		// while it is being examined, dangling once the directory has its final name
 		{Path: "h-tmp-rel", Kind: "link", Target: "../@TMPBASE@/main.tf"},
@@ -1097,4 +1132,63 @@ func (sc *Scenario) regIndexOf(addr string) int {
 		}
 	}
 	return -1
+}
+
+// madeAddresses lets every other reference to one package (one run in twelve) be an
+// address that its user builds with MakeRemoteSource from a URL value carrying a field
+// that printing ignores, instead of parsing the text: the same package.
+func madeAddresses(r *simkit.RNG, sc *Scenario) {
+	if len(sc.Pkgs) == 0 || !r.Chance(1, 12) {
+		return
+	}
+	p := &sc.Pkgs[r.Intn(len(sc.Pkgs))]
+	pre := "made-omithost::"
+	if p.Query != "" {
+		pre = simkit.Pick(r, []string{"made-forcequery::", "made-omithost::"})
+	}
+	n := 0
+	mark := func(t string) string {
+		s := t
+		if p.Query != "" {
+			if !strings.HasSuffix(s, "?"+p.Query) {
+				return t
+			}
+			s = strings.TrimSuffix(s, "?"+p.Query)
+		} else if strings.Contains(s, "?") {
+			return t
+		}
+		names := false
+		for _, base := range []string{p.Base, p.AltBase} {
+			if base != "" && (s == base || strings.HasPrefix(s, base+"//")) {
+				names = true
+			}
+		}
+		if !names {
+			return t
+		}
+		n++
+		if n%2 == 0 {
+			return pre + t
+		}
+		return t
+	}
+	for i := range sc.Adds {
+		if sc.Adds[i].Kind == "remote" {
+			sc.Adds[i].Addr = mark(sc.Adds[i].Addr)
+		}
+	}
+	for i := range sc.Pkgs {
+		for j := range sc.Pkgs[i].Mods {
+			for d := range sc.Pkgs[i].Mods[j].Deps {
+				if sc.Pkgs[i].Mods[j].Deps[d].Kind == "remote" {
+					sc.Pkgs[i].Mods[j].Deps[d].Addr = mark(sc.Pkgs[i].Mods[j].Deps[d].Addr)
+				}
+			}
+		}
+	}
+	for i := range sc.Regs {
+		for j := range sc.Regs[i].Versions {
+			sc.Regs[i].Versions[j].Source = mark(sc.Regs[i].Versions[j].Source)
+		}
+	}
 }
